@@ -397,6 +397,8 @@ pub fn history(index: u64, mut rng: Rng, cfg: &HistCfg, focus: &str) -> Outcome 
     // a verifier and a client with DataCap: some sectors carry a verified piece (QA power = 10 x raw)
     let vclient = w.others[1];
     {
+        // (set up without injected send failures)
+        let faults = w.v.random_faults.replace(None);
         use fil_actor_verifreg::{AddVerifiedClientParams, Method as VrM, VerifierParams};
         use fvm_shared::bigint::BigInt;
         let (_, _, ok) = crate::verif::via_root(&w.v, VrM::AddVerifier, &VerifierParams { address: w.others[0], allowance: BigInt::from(1u64 << 50) });
@@ -404,6 +406,7 @@ pub fn history(index: u64, mut rng: Rng, cfg: &HistCfg, focus: &str) -> Outcome 
         if !ok || !r.code.is_success() {
             o.inconclusive.push("DataCap client could not be set up".into());
         }
+        w.v.random_faults.replace(faults);
     }
     // sector -> (pieces, allocation ids) of pre-committed sectors with a verified piece
     let mut vpending: BTreeMap<(u64, u64), Vec<fil_actor_miner::PieceActivationManifest>> = BTreeMap::new();
@@ -442,7 +445,18 @@ pub fn history(index: u64, mut rng: Rng, cfg: &HistCfg, focus: &str) -> Outcome 
         let w_pre = if live.len() + precommitted.len() < 10 { 22 } else { 6 };
         let w_prove = if !ready.is_empty() { 30 } else if !precommitted.is_empty() { 12 } else { 0 };
         let w_post = if live.is_empty() { 0 } else { 30 };
-        let kind = rng.weighted(&[w_pre, w_prove, w_post, 7, 8, 4, 7, 3, 2, 5, 4, 18, 6, 2, 3]);
+        // replica updates need proven, healthy, deal-free sectors in deadlines that are neither open nor next
+        let updatable: Vec<(u64, u64, u64)> = {
+            let loc = locations(&pre);
+            active
+                .iter()
+                .filter(|sn| pre.sectors.get(sn).is_some_and(|s| s.deal_weight.is_zero() && s.verified_deal_weight.is_zero()))
+                .filter_map(|sn| loc.get(sn).map(|(d, p)| (*sn, *d, *p)))
+                .filter(|(_, d, _)| (*d + 48 - dl.index) % 48 >= 2)
+                .collect()
+        };
+        let w_upd = if updatable.is_empty() { 0 } else { 6 };
+        let kind = rng.weighted(&[w_pre, w_prove, w_post, 7, 8, 4, 7, 3, 2, 5, 4, 18, 6, 2, 3, w_upd]);
         let (name, r, inv): (&'static str, vm_api::MessageResult, Option<Inv>) = match kind {
             0 => {
                 let n = 1 + rng.below(4);
@@ -571,12 +585,38 @@ pub fn history(index: u64, mut rng: Rng, cfg: &HistCfg, focus: &str) -> Outcome 
                 if live.is_empty() {
                     continue;
                 }
-                let ss = rng.subset(&live, 1, 3);
+                // a third of the declarations deliberately span several deadlines that hold proven sectors
+                // (away from the open deadline and the next one, where declarations are refused)
+                let spread: Vec<usize> = pre
+                    .deadlines
+                    .iter()
+                    .enumerate()
+                    .filter(|(di, d)| {
+                        let ahead = (*di as u64 + 48 - dl.index) % 48;
+                        ahead >= 2 && d.partitions.iter().any(|p| !p.active().is_empty())
+                    })
+                    .map(|x| x.0)
+                    .collect();
+                let multi = spread.len() >= 2 && rng.chance(1, 3);
+                let ss: Vec<u64> = if multi {
+                    let mut ss = vec![];
+                    for di in rng.subset(&spread, 2, 3).into_iter().take(3) {
+                        let act: Vec<u64> = pre.deadlines[di].partitions.iter().flat_map(|p| p.active()).collect();
+                        ss.push(*rng.pick(&act));
+                    }
+                    o.count("declare_faults_multi_deadline_messages");
+                    ss
+                } else {
+                    rng.subset(&live, 1, 3)
+                };
                 if ss.is_empty() {
                     continue;
                 }
-                let decls = group(&pre, &ss, &mut rng, true);
+                let decls = group(&pre, &ss, &mut rng, !multi);
                 let (r, i) = declare_faults(&w.v, &m, &caller, &decls);
+                if r.code.is_success() && decls.iter().map(|d| d.0).collect::<BTreeSet<_>>().len() >= 2 {
+                    o.count("declare_faults_accepted_spanning_deadlines");
+                }
                 if r.code.is_success() {
                     mon.on_faults_declared(&pre, &decls);
                 }
@@ -759,6 +799,48 @@ pub fn history(index: u64, mut rng: Rng, cfg: &HistCfg, focus: &str) -> Outcome 
                     w.v.restore(&after);
                 }
                 ("report_consensus_fault", r, i)
+            }
+            15 => {
+                // replica update of 1-3 deal-free sectors (from different deadlines when possible), each
+                // receiving one piece that fills it: verified (DataCap allocation) or plain
+                use fil_actor_verifreg::AllocationRequest;
+                use fvm_shared::piece::PaddedPieceSize;
+                let mut chosen: Vec<(u64, u64, u64)> = vec![];
+                let mut pool = updatable.clone();
+                rng.shuffle(&mut pool);
+                for c in pool {
+                    if chosen.len() < 3 && (chosen.iter().all(|x| x.1 != c.1) || rng.chance(1, 3)) {
+                        chosen.push(c);
+                    }
+                }
+                let size = PaddedPieceSize(m.seal_proof.sector_size().unwrap() as u64);
+                let mut updates = vec![];
+                for (k, (sn, d, p)) in chosen.iter().enumerate() {
+                    let data = fil_actors_runtime::test_utils::make_piece_cid(format!("up{index}-{step}-{k}").as_bytes());
+                    let exp = pre.sectors[sn].expiration;
+                    let mut key = None;
+                    if rng.chance(3, 4) {
+                        // the claim's term must cover the sector's remaining life
+                        let life = exp - epoch;
+                        let req = AllocationRequest { provider: m.addr.id().unwrap(), data, size, term_min: policy.minimum_verified_allocation_term.min(life).max(policy.minimum_verified_allocation_term), term_max: policy.maximum_verified_allocation_term, expiration: epoch + rng.range(2, 50) * DAY };
+                        let (tr, _) = crate::verif::transfer_to_registry(&w.v, &vclient, &crate::verif::whole(size.0), vec![req], vec![]);
+                        if tr.code.is_success() {
+                            let resp: frc46_token::token::types::TransferReturn = ret(&tr).unwrap();
+                            let ar: fil_actor_verifreg::AllocationsResponse = resp.recipient_data.deserialize().unwrap();
+                            key = Some(fil_actor_miner::VerifiedAllocationKey { client: vclient.id().unwrap(), id: ar.new_allocations[0] });
+                        }
+                    }
+                    updates.push((*sn, *d, *p, vec![fil_actor_miner::PieceActivationManifest { cid: data, size, verified_allocation_key: key, notify: vec![] }]));
+                }
+                let deadlines: BTreeSet<u64> = chosen.iter().map(|c| c.1).collect();
+                let (r, i) = prove_replica_updates(&w.v, &m, &caller, updates, rng.chance(1, 4));
+                if r.code.is_success() {
+                    o.count("replica_update_messages_ok");
+                    if deadlines.len() >= 2 {
+                        o.count("replica_update_messages_spanning_deadlines");
+                    }
+                }
+                ("replica_update", r, i)
             }
             _ => {
                 let amt = fil(rng.range(1, 1000));
